@@ -22,21 +22,6 @@ Proof.
   unfold lower_byte. assert ((65 <=? c) && (c <=? 90) = false) as -> by (unfold is_digit in Hc; lia). reflexivity.
 Qed.
 
-Lemma lstrip_app_nows x c y : is_ws c = false -> lstrip (x ++ c :: y) = lstrip x ++ c :: y.
-Proof.
-  intros Hc. induction x as [|d x IH]; cbn [app lstrip].
-  - now rewrite Hc.
-  - destruct (is_ws d); [exact IH|reflexivity].
-Qed.
-
-(* rstrip never reaches past a non-blank byte *)
-Lemma rstrip_keep a c b : is_ws c = false -> rstrip (a ++ c :: b) = a ++ c :: rstrip b.
-Proof.
-  intros Hc. unfold rstrip. rewrite rev_app_distr. cbn [rev]. rewrite <- app_assoc. cbn [app].
-  rewrite lstrip_app_nows by exact Hc. rewrite rev_app_distr. cbn [rev]. rewrite rev_involutive.
-  rewrite <- app_assoc. reflexivity.
-Qed.
-
 Lemma firstn_len_app {A} (t r : list A) : firstn (length t) (t ++ r) = t.
 Proof. induction t as [|x t IH]; [reflexivity|]. cbn [length app firstn]. now rewrite IH. Qed.
 Lemma skipn_len_app {A} (t r : list A) : skipn (length t) (t ++ r) = r.
